@@ -64,7 +64,11 @@ func c15files(n int, adj []int, cfgs []c15cfg, root int) (map[string]string, str
 		for j := 0; j < n; j++ {
 			if adj[i]>>j&1 == 1 {
 				q := c15names[j]
-				imps = append(imps, fmt.Sprintf("\t%q\n", c15importPath(q, cfgs[j])))
+				if cfg.Files == 3 { // the three-file layout spells its import paths as raw string literals
+					imps = append(imps, "\t`"+c15importPath(q, cfgs[j])+"`\n")
+				} else {
+					imps = append(imps, fmt.Sprintf("\t%q\n", c15importPath(q, cfgs[j])))
+				}
 				deps = append(deps, q+".Ready()")
 			}
 		}
